@@ -158,6 +158,24 @@ def watchdog(fn: Callable[[], Any], timeout: float) -> Tuple[str, Any]:
     return box["s"], box["v"]
 
 
+def watchdog_retry(fn: Callable[[], Any], timeout: float, before_retry: Optional[Callable[[], None]] = None) -> Tuple[str, Any, int]:
+    """watchdog; a run that does not return in time is abandoned (its worker / manager processes are killed) and tried ONCE
+    more.  Returns (status, value, number of timeouts).  A timeout that is not reproduced is counted by the callers in their
+    evidence (an unreproducible stall of a MULTIPROCESSING run under load says nothing about the property under check); two
+    timeouts in a row are reported as a hang."""
+    st, v = watchdog(fn, timeout)
+    if st != "hang":
+        return st, v, 0
+    kill_stray_children()
+    if before_retry is not None:
+        before_retry()
+    st, v = watchdog(fn, timeout)
+    if st == "hang":
+        kill_stray_children()
+        return st, v, 2
+    return st, v, 1
+
+
 def flight_pid() -> Optional[int]:
     from harness import orch
     if orch._FLIGHT and orch._FLIGHT[0].flight_server_process is not None:
